@@ -182,7 +182,8 @@ theorem C04_files_small_sharp (f : Bytes) (L : Nat) (h : 18446744073709551615 â‰
   relative link target up from the link's directory TEXTUALLY and returns `Err` when it is
   asked to go up from the empty directory text, although Linux resolves such a link (`..` at
   `/` stays at `/`).  `Range::get_content_range_list` used to `unwrap` that result
-  (`range/mod.rs:299`: panic, nothing written to the connection); since the repair it answers 500.
+  (`range/mod.rs:299`: panic, nothing written to the connection); after that repair it answered 500;
+  since F75 the link is followed by the operating system and the file is served.
 
   Old witness: working directory `/w`, `/w/l -> ../../x`, regular file `/x`; request `GET /l`. -/
 
@@ -193,21 +194,22 @@ def getL : Bytes := ascii "GET /l HTTP/1.1\r\n\r\n"
 example : FilesSmall climbTree = true := by decide +kernel
 
 /-- `Server.process â€¦ = .ok o` with `o.result = ok`, one write buffer = what the peer received,
-    one flush, nothing read, and the bytes start with `HTTP/1.1 500 ` -/
-def answered500 (r : Outcome Outcome2) : Bool :=
+    one flush, and the bytes start with `HTTP/1.1 200 ` -/
+def answered200 (r : Outcome Outcome2) : Bool :=
   match r with
   | .ok o => decide (o.result = .ok) && decide (o.wire.writes = [o.wire.received]) && decide (o.wire.flushes = 1) &&
-             o.reads.isEmpty && decide (o.wire.received.take 13 = ascii "HTTP/1.1 500 ")
+             decide (o.wire.received.take 13 = ascii "HTTP/1.1 200 ")
   | _ => false
 
-def answered500Legacy (r : Outcome (Bytes Ã— Wire Ã— List Loc)) : Bool :=
+def answered200Legacy (r : Outcome (Bytes Ã— Wire Ã— List Loc)) : Bool :=
   match r with
-  | .ok (raw, wire, reads) => decide (wire.received = raw) && reads.isEmpty && decide (raw.take 13 = ascii "HTTP/1.1 500 ")
+  | .ok (raw, wire, _) => decide (wire.received = raw) && decide (raw.take 13 = ascii "HTTP/1.1 200 ")
   | _ => false
 
-/-- both entry points now answer one complete `500` (the handler succeeded: `result = ok`) -/
-example : answered500 (Server.process climbCtx .real 32 (.data getL) [] true) = true := by decide +kernel
-example : answered500Legacy (Server.processRequest climbCtx 32 (.data getL) [] true) = true := by decide +kernel
+/-- since the repair of F75 the operating system follows the link (`..` at `/` stays at `/`): both entry points
+    answer one complete `200` with the file the link really points to (F41: panic; after F41's repair: `500`) -/
+example : answered200 (Server.process climbCtx .real 32 (.data getL) [] true) = true := by decide +kernel
+example : answered200Legacy (Server.processRequest climbCtx 32 (.data getL) [] true) = true := by decide +kernel
 
 /-- a `..` that stays below `/` is served (`/w/d/up -> ../f.txt`) -/
 def upTree : Tree :=
